@@ -461,10 +461,21 @@ def isolated_systems(draw, min_lines=2):
     for i in lhs:
         rels.append({'i': i, 'cmp': draw(st.sampled_from(CMPS)),
                      'rhs': draw(trees(free, sorted(locs), depth=1, exact=exact))})
-    extra = draw(st.sampled_from(['', '', 'neq-same', 'neq-other', 'band']))
+    extra = draw(st.sampled_from(['', '', 'neq-same', 'neq-other', 'band', 'neq-two']))
     if extra:
         r0 = rels[0]
-        if extra == 'band':
+        if extra == 'neq-two':
+            # several excluded values for one variable, the first of them sitting on its (non-strict) bound
+            r0['cmp'] = draw(st.sampled_from(['<=', '>=', '<=', '>=', '<', '>']))
+            comps = [{'i': r0['i'], 'cmp': '!=', 'rhs': r0['rhs']}]
+            for _ in range(draw(st.integers(1, 2))):
+                comps.append({'i': r0['i'], 'cmp': '!=', 'rhs': draw(trees(free, sorted(locs), depth=1, exact=exact))})
+            if draw(st.integers(0, 3)) == 0:
+                comps = list(draw(st.permutations(comps)))
+            pos = draw(st.integers(0, len(rels)))
+            rels[pos:pos] = comps
+            comp = None
+        elif extra == 'band':
             r0['cmp'] = '>='
             comp = {'i': r0['i'], 'cmp': '<=',
                     'rhs': ['add', r0['rhs'], ['c', draw(st.sampled_from([0.0, 0.5, 2.5, 100.0]))]]}
@@ -472,7 +483,8 @@ def isolated_systems(draw, min_lines=2):
             r0['cmp'] = draw(st.sampled_from(['<=', '>=', '<', '>']))
             comp = {'i': r0['i'], 'cmp': '!=',
                     'rhs': r0['rhs'] if extra == 'neq-same' else draw(trees(free, sorted(locs), depth=1, exact=exact))}
-        rels.insert(draw(st.integers(0, len(rels))), comp)
+        if comp is not None:
+            rels.insert(draw(st.integers(0, len(rels))), comp)
     tol, rel = draw(tolerances())
     return {'seed': draw(st.integers(0, 2 ** 20)), 'n': n, 'scheme': draw(schemes(n)),
             'pass_nvars': draw(st.booleans()), 'rels': rels, 'extra': extra, 'locals': locs, 'tol': tol, 'rel': rel,
